@@ -25,7 +25,7 @@ ASSUMPTIONS = [
     'messages are syntactically valid RFC 9174 encodings (malformed framing is C07)',
     'timers off; no TLS; each adversarial message arrives in one read',
     'segment data lengths < 2^62 so that the cumulative length of a transfer stays a U64',
-    'a repeated SESS_INIT, KEEPALIVE and MSG_REJECT are treated as legal (the property does not list them)',
+    'KEEPALIVE and MSG_REJECT are treated as legal in any session state (the property does not list them); a second SESS_INIT in a session is out of place',
 ]
 REQUIRED_CLASSES = {'all': ['illegal', 'legal']}
 QUICK_VALIDATE = 4
@@ -270,6 +270,8 @@ def is_illegal(c, w, st, rec, own, peer, in_sess):
         if cur_rx is None:
             return True
         return bool(rec['transfer_id'] != cur_rx)
+    if k == 'SESS_INIT':
+        return True          # the session exists already
     if k in ('XFER_ACK', 'XFER_REFUSE'):
         known = []
         if own is not None:
